@@ -338,10 +338,14 @@ void threshold_optimal
 {
     if (mode == threshold_optimal_value::otsu)
     {
+        // nth_channel_view indexes channels by memory position: pair source and destination channels by colour
+        using src_mapping_t = typename channel_mapping_type<SrcView>::type;
+        using dst_mapping_t = typename channel_mapping_type<DstView>::type;
         for (std::size_t i = 0; i < src_view.num_channels(); i++)
         {
             detail::otsu_impl
-                (nth_channel_view(src_view, i), nth_channel_view(dst_view, i), direction);
+                (nth_channel_view(src_view, static_cast<int>(detail::physical_channel_index<src_mapping_t>(i))),
+                 nth_channel_view(dst_view, static_cast<int>(detail::physical_channel_index<dst_mapping_t>(i))), direction);
         }
     }
 }
